@@ -7,10 +7,12 @@ from harness.common import core
 from harness.common.core import pct, rat, unpct
 
 ID = "C15"
-LEAN_TARGETS = ["ChmpyVerif.Props.C15"]
+LEAN_TARGETS = ["ChmpyVerif.Props.C15", "ChmpyVerif.Props.C15Line", "ChmpyVerif.Props.C15Row"]
 T = "ChmpyVerif.Props.C15."
 THEOREMS = [T + n for n in ("matchNumber_int", "parse_value_int", "parse_value_quoted", "parse_value_plain", "needsQuote_iff",
-                            "tokens_single_quoted", "wellformed_example")]
+                            "tokens_single_quoted", "wellformed_example",
+                            "splitWs_head", "scalar_line", "scalar_line_int", "scalar_line_quoted",
+                            "go_fuel2", "tokens_pad", "tokens_word", "tokens_quoted", "row_tokens", "fmtInt_field")]
 TRUSTED = [
     "hand model Model/Cif.lean of parse_value / NUM_ERR_REGEX / parse_quote / VALUES_REGEX / format_field / Cif.to_string / Cif.parse "
     "(line-driven state machine; multi-line ';' text fields not modelled); tied by whole-document correspondence incl. a malformed stream",
@@ -23,13 +25,16 @@ RULE = ("documents from a grammar: 1-4 blocks, 0-12 items, scalars and loops of 
 MANIFEST = {
     "text": ("Proof (partial). Proved for ALL inputs at the value/token level: the decimal text of every integer parses back to that integer as an int, "
              "quoted strings (any content without quote characters, any embedded blanks) lose only their quotes, plain words parse to themselves, "
-             "needs_quote is exactly 'has a blank and no quote character', a quoted field is ONE row token whatever blanks it holds; a concrete "
+             "needs_quote is exactly 'has a blank and no quote character', a quoted field is ONE row token whatever blanks it holds; at the LINE level: a written scalar line `_name value` is read back by "
+             "parse_data_name as that name with that value and the parser advances one line (any blank-free name; integer, quoted or any value text "
+             "whose value-level parse is known); a written loop ROW (fields joined by single blanks, numbers right-aligned, strings plain or quoted) is "
+             "cut by the row tokenizer into exactly its fields (row_tokens, with the tokenizer's fuel proved irrelevant); a concrete "
              "two-block document (scalars, integral float, strings with double blanks, a loop, an empty block) is parsed back by kernel evaluation. "
-             "Float type preservation (2.0 stays float) and `n(u)` are covered by correspondence/oracle, not yet by theorems. The whole-document theorem parse(print d) = d for well-formed d is stated but NOT proved; whole documents are tied by "
+             "Float type preservation (2.0 stays float) and `n(u)` are covered by correspondence/oracle, not yet by theorems. The assembly of lines into loops and blocks (grouping, transposition, the loop state machine) is NOT proved, so neither is the whole-document theorem parse(print d) = d; whole documents are tied by "
              "correspondence (model vs implementation on generated and malformed texts) and a round-trip oracle."),
     "note": ("Trusted: Lean kernel; hand model of the regexes and of the parser state machine; str(float)/float(str) of CPython; "
              "document-level round trip by oracle only."),
-    "technique": "Lean 4 proof (token/value level, decimal round-trip lemmas) + whole-document correspondence incl. malformed stream + round-trip oracle",
+    "technique": "Lean 4 proof (value, line and row level; decimal round-trip lemmas) + whole-document correspondence incl. malformed stream + round-trip oracle",
 }
 
 WORDS = ["abc", "x-1", "P21/c", "C6H6", "a_b", "alpha", "Mo", "note", "?", ".", "n/a", "x,y,z", "1-x", "+x", "v1.2b", "A1", "O1W", "12a", "e5", "-y,x-y,z+1/3"]
